@@ -20,7 +20,7 @@ func decodeViaConn(b []byte) (line string, o vh.Outcome) {
 		c2.Write(b)
 		c2.Close()
 	}()
-	o = vh.GuardTimeout(20*time.Second, func() {
+	o = vh.GuardTimeout(120*time.Second, func() {
 		din := gio.NewDataInputNet(c1)
 		line = vg.FromGo(value.ReadValue(din)).Line()
 	})
